@@ -127,7 +127,7 @@ theorem appendExchange_spec (fill : Inst → Inst) (hfill : FillOk fill) (s : Se
     (by rw [kept_exchange, fids_exchange]; exact hnz)
   rw [kept_exchange, fids_exchange] at h1
   have h2 := pass2_spec .exchange fill noSev (fileIdIncrOf s.maxId) (pass1 .exchange (fileIdIncrOf s.maxId) s (exchangeEntries f)).maxId
-    hfill.id_eq rfl (exchangeEntries f) s.nodes
+    hfill.id_eq rfl rfl (exchangeEntries f) s.nodes
     (by
       rw [kept_exchange, fids_exchange, List.nodup_append]
       exact ⟨hs.nodup, hnd, fun a ha b hb he => hfresh b hb (he ▸ ha)⟩)
@@ -232,6 +232,7 @@ theorem refs_shift (k : Int) (i : Inst) : (i.shift k).refs = i.refs.map (· + k)
     | aggr e ih => simpa [Val.mapRefs, Val.refs] using ih
     | nil => rfl
     | cons a b iha ihb => simp [Val.mapRefs, Val.refs, iha, ihb]
+    | via p v ih => simpa [Val.mapRefs, Val.refs] using ih
   have hvs : ∀ vs : List Val, (vs.map (Val.mapRefs (· + k))).flatMap Val.refs = (vs.flatMap Val.refs).map (· + k) := by
     intro vs
     induction vs with
@@ -279,12 +280,59 @@ theorem C14_history (s : Sess) (fs : List (List Inst)) (hs : Inv s) (hfs : ∀ f
     · exact List.IsPrefix.trans (by rw [h1.1]; exact List.prefix_append _ _) this.2.1
     · rw [this.2.2, h1.1]; simp; omega
 
+/-! ### the increment must be handed on at EVERY call site
+
+`Generated.threading` records, site by site, whether the code hands `addFileId` on (tools/extract.d/threading.py).
+`C14_threading_complete` is the fact all the theorems above rest on; the theorems after it say what happens to a reference
+when one site drops the increment: it keeps its number as written and binds to the EARLIER instance bearing that number
+(capture).  Each is the predicted failing input of the corresponding source change. -/
+
+theorem C14_threading_complete : threading = allOn := rfl
+
+/-- a reference read with an increment that was dropped to 0 on the way binds to the earlier instance of that number -/
+theorem capture_ref (T : Threading) (ns : List Node) (c : Ctx) (r : Int) (h : r ∈ ids ns) :
+    resolveValT T ns c 0 (.ref r) = (.ref r, true) := by
+  have : (find ns r).isSome = true := find_isSome.mpr h
+  cases c <;> simp [resolveValT, thr, this]
+
+/-- redeclared attribute (`SELF\super.attr : narrower`), forwarding without the increment: `#r` stays `#r` -/
+theorem C14_dropping_redef_captures (ns : List Node) (k r : Int) (h : r ∈ ids ns) :
+    resolveValT { allOn with redef := false } ns .top k (.via .redecl (.ref r)) = (.via .redecl (.ref r), true) := by
+  have hf : (find ns r).isSome = true := find_isSome.mpr h
+  simp [resolveValT, resolvePartsT, resolveValsT, thr, allOn, hf]
+
+/-- typed select value carrying references (`ENT_LIST((#r))`), `SDAI_Select::STEPread` not handing the increment to the content -/
+theorem C14_dropping_selectContent_captures (ns : List Node) (k r : Int) (n : String) (h : r ∈ ids ns) :
+    resolveValT { allOn with selectContent := false } ns .top k (.via .select (.typed n (.aggr (.cons (.ref r) .nil)))) =
+      (.via .select (.typed n (.aggr (.cons (.ref r) .nil))), true) := by
+  have hf : (find ns r).isSome = true := find_isSome.mpr h
+  simp [resolveValT, resolvePartsT, resolveValsT, thr, allOn, hf]
+
+/-- element of an aggregate of selects, the select node read without the increment -/
+theorem C14_dropping_aggrSelectElem_captures (ns : List Node) (k r : Int) (h : r ∈ ids ns) :
+    resolveValT { allOn with aggrSelectElem := false } ns .top k (.aggr (.cons (.via .select (.ref r)) .nil)) =
+      (.aggr (.cons (.via .select (.ref r)) .nil), true) := by
+  have hf : (find ns r).isSome = true := find_isSome.mpr h
+  simp [resolveValT, resolvePartsT, resolveValsT, thr, allOn, hf]
+
+/-- part of a complex instance read without the increment -/
+theorem C14_dropping_complexPart_captures (ns : List Node) (k r : Int) (nm : String) (h : r ∈ ids ns) :
+    resolvePartsT { allOn with complexPart := false } ns true k [⟨nm, [.ref r]⟩] = ([⟨nm, [.ref r]⟩], true) := by
+  have hf : (find ns r).isSome = true := find_isSome.mpr h
+  simp [resolveValT, resolvePartsT, resolveValsT, thr, allOn, hf]
+
+/-- `ReadEntityRef` not adding the increment: every reference everywhere is captured -/
+theorem C14_dropping_refAdd_captures (ns : List Node) (c : Ctx) (k r : Int) (h : r ∈ ids ns) :
+    resolveValT { allOn with refAdd := false } ns c k (.ref r) = (.ref r, true) := by
+  have : (find ns r).isSome = true := find_isSome.mpr h
+  cases c <;> simp [resolveValT, thr, this]
+
 /-! ### hypotheses are satisfiable; the interesting case (identical ids in both files) is covered -/
 
-def exA : List Inst := [⟨1, [⟨"T0", [.tok "5", .ref 2]⟩]⟩, ⟨2, [⟨"T1", [.aggr (.cons (.ref 1) .nil)]⟩]⟩]
+def exA : List Inst := [⟨1, [⟨"T0", [.tok "5", .ref 2]⟩], ""⟩, ⟨2, [⟨"T1", [.aggr (.cons (.ref 1) .nil)]⟩], ""⟩]
 
 example : Conf exA := ⟨by decide, by decide, by decide⟩
 example : (appendExchange id noSev (readExchange id noSev exA) exA).nodes.map (·.inst) =
-    exA ++ [⟨2001, [⟨"T0", [.tok "5", .ref 2002]⟩]⟩, ⟨2002, [⟨"T1", [.aggr (.cons (.ref 2001) .nil)]⟩]⟩] := by decide
+    exA ++ [⟨2001, [⟨"T0", [.tok "5", .ref 2002]⟩], ""⟩, ⟨2002, [⟨"T1", [.aggr (.cons (.ref 2001) .nil)]⟩], ""⟩] := by decide
 
 end StepModel.Session
